@@ -36,6 +36,10 @@ def gen(seed, tier, index):
     faulty = (index % 2 == 1)
     g = StoreW(seed, "C05", profile="fault" if faulty else "seq", big=(index % 5 == 0))
     r = g.r
+    if faulty and index % 4 == 1:
+        # values larger than the stdio buffer are written past it by one write(2) of their own: in half of the faulted plans a third of the values are
+        # that large (but small enough to keep the run short), so that faults can land inside one value
+        g.big = True; g.big_p = 0.35; g.big_sizes = [4097, 8193, 9000, 20000, 20000, 70000]
     if index % 6 in (4, 5):
         # configuration stratum: the SQLite object store, on the same simulated disk (SQLite VFS seam), with and without faults
         g.knobs["conf"]["objectstore.backend"] = "db"
